@@ -1,6 +1,10 @@
-(* Reference specification: org.apache.maven.artifact.versioning.ComparableVersion as of
-   Maven 3.6 (the algorithm util/semver/maven.go says it follows), transcribed from the
-   published source.  Independent of the model of deps.dev.  Definitions only.
+(* Reference specification: org.apache.maven.artifact.versioning.ComparableVersion as shipped
+   in maven-artifact 3.8.x (checked against the bytecode of the installed 3.8.7 jar, and against
+   its behaviour on every run).  It differs from the 3.6 source in two places, both marked
+   below: a string qualifier that would be appended to a non-empty list (1.0.RC1, 1.0.Final)
+   opens a sub-list first, as a '-' would; and a list compared with null looks at all its items.
+   On the Maven-Central shape D_mvn (qualifier attached by '-' or directly) the two versions
+   parse and order alike.  Independent of the model of deps.dev.  Definitions only.
 
    Items: IntItem / LongItem / BigIntegerItem (one constructor here: after stripping leading
    zeros the three Java classes order numerals by magnitude, the class rank being the
@@ -73,7 +77,14 @@ Fixpoint cmp_null (a : item) : Z :=
   match a with
   | IInt n => if N.eqb n 0 then 0 else 1
   | IStr s => str_cmp (comparable_qualifier s) release_version_index
-  | IList l => match l with [] => 0 | x :: _ => cmp_null x end
+  | IList l =>
+      (* 3.8.x: every item of the list against null, the first non-zero result decides
+         (3.6 looked at the first item only) *)
+      (fix go (l : list item) : Z :=
+         match l with
+         | [] => 0
+         | x :: t => let c := cmp_null x in if c =? 0 then go t else c
+         end) l
   end.
 
 Fixpoint nulls_l (la : list item) : Z :=
@@ -150,6 +161,14 @@ Definition add_item (it : item) (st : list (list item)) : list (list item) :=
   | l :: r => (it :: l) :: r
   end.
 
+(* 3.8.x, "treat .X as -X for any string qualifier X": a string item is never appended to a
+   list that already has items; a new sub-list is opened for it first *)
+Definition open_if_nonempty (st : list (list item)) : list (list item) :=
+  match st with
+  | (_ :: _) :: _ => [] :: st
+  | _ => st
+  end.
+
 Definition flush (st : pstate) : list (list item) :=
   match ps_cur st with
   | [] => add_item (IInt 0) (ps_stack st)
@@ -164,7 +183,7 @@ Definition pstep (st : pstate) (c : N) : pstate :=
   else if is_digit c then
     if negb (ps_digit st) && negb (match ps_cur st with [] => true | _ => false end) then
       {| ps_digit := true; ps_cur := [c];
-         ps_stack := [] :: add_item (string_item (rev (ps_cur st)) true) (ps_stack st) |}
+         ps_stack := [] :: add_item (string_item (rev (ps_cur st)) true) (open_if_nonempty (ps_stack st)) |}
     else {| ps_digit := true; ps_cur := c :: ps_cur st; ps_stack := ps_stack st |}
   else
     if ps_digit st && negb (match ps_cur st with [] => true | _ => false end) then
@@ -183,7 +202,8 @@ Definition parse_version (s : bytes) : item :=
   let st := fold_left pstep (to_lower s) {| ps_digit := false; ps_cur := []; ps_stack := [[]] |} in
   let stack := match ps_cur st with
                | [] => ps_stack st
-               | _ => add_item (parse_item (ps_digit st) (rev (ps_cur st))) (ps_stack st)
+               | _ => add_item (parse_item (ps_digit st) (rev (ps_cur st)))
+                        (if ps_digit st then ps_stack st else open_if_nonempty (ps_stack st))
                end in
   match stack with
   | [] => IList []
